@@ -114,6 +114,67 @@ def run_one(case):
         eng.stop()
 
 
+def run_interrupted(case):
+    """case = (flavour key, behaviour, first side).  An edit/edit conflict that is preceded by an INTERRUPTED sync of the
+    same file: the local save is downloaded to the engine's temp file, its upload to the remote is refused once with a
+    temporary error, then both sides are edited again.  The resolver must still be handed the bytes the two sides hold
+    NOW (not the superseded temp file) and the outcome must be the specified one."""
+    fk, beh, first = case
+    import cloudsync.exceptions as ex
+    E.install()
+    E.reset_serials()
+    fl = E.Flavour.from_key(fk)
+    world = E.World(fl)
+    eng = E.Engine(world, resolver=make_resolver(beh))
+    toks = {}
+
+    def tok(b):
+        return toks.setdefault(bytes(b), len(toks) + 1)
+    try:
+        name, cname = "f.txt", "f.conflicted.txt"
+        world.user(0, ["create", fl.roots[0] + "/" + name, b"base-version"])
+        if eng.drain(100) is None:
+            return dict(case=case, error="base did not sync")
+        world.user(0, ["write", fl.roots[0] + "/" + name, b"local-v2-superseded"])
+        eng.intake(0)
+        fired = [0]
+
+        def plan(side, call, idx):
+            if side == 1 and call == "upload" and not fired[0]:
+                fired[0] = 1
+                return ex.CloudTemporaryError("refused once")
+            return None
+        eng.fault_plan = plan
+        eng.sync()
+        eng.fault_plan = None
+        a, b = b"local-v3", b"remote-v3-longer"
+        ops = {0: ["write", fl.roots[0] + "/" + name, a], 1: ["write", fl.roots[1] + "/" + name, b]}
+        world.user(first, ops[first])
+        world.user(1 - first, ops[1 - first])
+        rounds = eng.drain(150)
+        if rounds is None:
+            return dict(case=case, error="engine still busy after 150 rounds", calls=len(eng.resolver_calls), fault_fired=fired[0])
+        calls = []
+        for rec in eng.resolver_calls:
+            by_side = dict(zip(rec["sides"], rec.get("bytes", [None, None])))
+            if 0 not in by_side or 1 not in by_side or by_side[0] is None:
+                calls.append([tok(b"<bad call>"), tok(b"<bad call 2>")])
+            else:
+                calls.append([tok(by_side[0]), tok(by_side[1])])
+
+        def tree(view):
+            out = []
+            for p, node in sorted(view.items()):
+                comps = [c for c in p.split("/") if c]
+                ids = [{name: 1, cname: 2}.get(c, 50 + tok(c.encode())) for c in comps]
+                out.append([ids, [] if node[0] == "D" else [tok(node[1])]])
+            return out
+        req = [[], 1, 2, tok(a), tok(b), answer_sx(beh, tok), calls, tree(world.view(0)), tree(world.view(1))]
+        return dict(case=case, req=req, ncalls=len(calls), views=[repr(world.view(0)), repr(world.view(1))], fault_fired=fired[0])
+    finally:
+        eng.stop()
+
+
 def _chunk(cases):
     return [run_one(c) for c in cases]
 
@@ -168,6 +229,32 @@ def run(ctx):
             else:
                 ctx.violation("conflict outcome differs from the specified one (C05): %s; observed %d resolver call(s), views %s; "
                               "expected (calls, local, remote) = %s" % (casej, r["ncalls"], r["views"], ans[1:]),
+                              dict(kind="conflict-run", case=casej, observed=dict(calls=r["ncalls"], views=r["views"]), expected=ans[1:]))
+        # ---- deterministic family: the conflict is preceded by an interrupted sync of the same file (a filled temp file
+        # of a superseded version exists when the conflict is handled)
+        icases = [(fk, beh, first) for fk in flavours
+                  for beh in ("pick_local_keep", "pick_local_nokeep", "pick_remote_keep", "pick_remote_nokeep", "none")
+                  for first in (0, 1)]
+        ires = [run_interrupted(c) for c in icases]
+        model = fw.ModelProc("resolver")
+        ians = model.batch([r["req"] for r in ires if "req" in r])
+        model.close()
+        it2 = iter(ians)
+        stats["interrupted_sync"] = dict(runs=len(ires), fault_fired=sum(r.get("fault_fired", 0) for r in ires), accepted=0)
+        for r in ires:
+            fk, beh, first = r["case"]
+            casej = dict(flavour=fk, shape="edit-after-interrupted-sync", behaviour=beh, first_side=first)
+            if "req" not in r:
+                ctx.violation("conflict after an interrupted sync did not settle: %s (%s)" % (r.get("error"), casej),
+                              dict(kind="conflict-run", case=casej))
+                continue
+            ans = next(it2)
+            if ans == [1]:
+                stats["interrupted_sync"]["accepted"] += 1
+            else:
+                ctx.violation("conflict after an interrupted sync: outcome / resolver input differs from the specified one (C05): %s; "
+                              "observed %d resolver call(s), views %s; expected (calls, local, remote) = %s"
+                              % (casej, r["ncalls"], r["views"], ans[1:]),
                               dict(kind="conflict-run", case=casej, observed=dict(calls=r["ncalls"], views=r["views"]), expected=ans[1:]))
         # ---- deterministic probe: merged data with keep = True.  The property states no outcome for it, but whatever the
         # resolver answers the engine must reach a quiet state in a bounded number of steps (C01); it does not (finding E-7).
